@@ -50,7 +50,7 @@ def run(ctx):
     vlib.write_evidence(ctx, "exploration", {
         "evaluations": len(vecs) * 2 + e2e, "distinct_nontrivial": len(vecs) * 2 + e2e // rounds,
         "rule": "every broker-to-client value of Wire!Packets5 (%s) x target protocol {3.1.1, 5}: write with the broker protocol, read with the client codec, compare fields; "
-                "plus real router + two remote() tasks for the 4 version pairs x 32 property subsets (v5 publisher) / 1 (v4 publisher), a v5 subscriber with and without a subscription identifier, repeated %d time(s); distinct = distinct (packet value, "
+                "plus real router + two remote() tasks for the 4 version pairs x 32 property subsets (v5 publisher) / 1 (v4 publisher), a v5 subscriber plain / with a subscription identifier / with Topic Alias Maximum, repeated %d time(s); distinct = distinct (packet value, "
                 "target) and distinct (pair, property subset)" % (", ".join("%s: %d" % kv for kv in sorted(bytype.items())), rounds),
         "samples": [{"vector": vecs[len(vecs) // 2]["p"]}, {"end_to_end": sample}],
         "exhaustive": True, "failed_vectors": failed, "failed_end_to_end": e2e_bad,
